@@ -174,6 +174,9 @@ _noimp=[{"file":"memio.go","old":"import \"reflect\"\n","new":""}]
 m("c15-equal-entrywise-refactor",["C15"],"memio.go","\treturn reflect.DeepEqual(mm, a)\n",_eq("w, ok := a[k]; !ok || w != v"),edits=_noimp,expect="silent",note="hand-written entry-wise comparison, equivalent to DeepEqual on maps")
 m("c15-equal-entrywise-no-presence-test",["C15"],"memio.go","\treturn reflect.DeepEqual(mm, a)\n",_eq("a[k] != v"),edits=_noimp,note="a missing key reads as 0: zero cells at different addresses compare equal")
 m("c15-equal-entrywise-no-nil-test",["C15"],"memio.go","\treturn reflect.DeepEqual(mm, a)\n",_eq("w, ok := a[k]; !ok || w != v").replace("(mm == nil) != (a == nil) || ",""),edits=_noimp,note="nil and empty maps compare equal")
+m("c08-for-not-halted-refactor",["C08","C13","C12"],"cpu.go","\tfor {\n","\tfor !cpu.HALT {\n",edits=[{"file":"cpu.go","old":"\t\tif cpu.HALT {\n\t\t\tbreak\n\t\t}\n\t}\n\treturn nil","new":"\t}\n\treturn nil"}],expect="silent",note="HALT tested by the loop condition (after the entry reset): same stopping rule")
+m("c08-select-poll-refactor",["C08","C13","C10","C12"],"cpu.go",_RUN_HEAD,"\tdone := ctx.Done()\n\tvar _ = atomic.LoadInt32\n\n\tcpu.HALT = false\n\tfor {\n\t\tselect {\n\t\tcase <-done:\n\t\t\treturn ctx.Err()\n\t\tdefault:\n\t\t}",expect="silent",note="non-blocking poll of ctx.Done() before every Step, no goroutine")
+m("c08-for-not-halted-halt-first",["C08"],"cpu.go","\tfor {\n","\tfor !cpu.HALT {\n",edits=[{"file":"cpu.go","old":RUNLOOP,"new":"\t\tcpu.Step()\n\t\tif cpu.HALT {\n\t\t\tcontinue\n\t\t}\n\t\tif cpu.BreakPoints != nil {\n\t\t\tif _, ok := cpu.BreakPoints[cpu.PC]; ok {\n\t\t\t\treturn ErrBreakPoint\n\t\t\t}\n\t\t}\n"}],note="rotated loop in which an executed HALT wins over a breakpoint on its address")
 # ---- C16
 m("c16-resetflag-and",["C16"],"flag.go","gpr.AF.Lo &= ^uint8(f)","gpr.AF.Lo &= uint8(f)")
 m("c16-getflag-all-bits",["C16"],"flag.go","return gpr.AF.Lo&uint8(f) != 0","return gpr.AF.Lo&uint8(f) == uint8(f)",note="differs only for combined masks")
